@@ -56,13 +56,16 @@ def generate(rng, tier):
             fam = "hms/boundary"
         elif r < 0.5:
             d = rng.randint(0, 10**7) + rng.choice([0.5, 0.0, 0.25, 0.499999, 0.500001]); fam = "hms/half"
+        elif r < 0.53:
+            # whole numbers of seconds beyond 2^53 (integers that no double represents exactly): every digit of the count is meaningful
+            d = rng.choice([2**53 + 1, 2**53 + 61, 2**64 + 59, 10**17 + 1, 10**20 + 3661, rng.randint(2**53, 2**70) | 1]); fam = "hms/int-beyond-2^53"
         elif r < 0.6:
             d = rng.randint(0, 10**7); fam = "hms/int"
         elif r < 0.8:
             d = rng.uniform(0, 20); fam = "hms/short"
         else:
             d = 10 ** rng.uniform(0, 7); fam = "hms/log"
-        ms = rng.random() < 0.4
+        ms = rng.random() < 0.4 and fam != "hms/int-beyond-2^53"
         if ms:
             d = d * 1000 if rng.random() < 0.7 else float(int(d * 1000)) if rng.random() < 0.5 else int(d * 1000)
         cases.append({"kind": "h", "d": d, "ms": ms, "family": fam + ("/ms" if ms else "")})
